@@ -99,13 +99,23 @@ func (ul *Upstreams) open(manager cert.TlsConfig) (err error) {
 
 // openStream will select a specific subprotocol stream within our session
 func (ul *Upstreams) openStream(subProtocol string) (streams.ReadWriteCloserClosed, error) {
-	conn, err := ul.session.OpenStream()
+	ul.mutex.Lock()
+	session := ul.session
+	ul.mutex.Unlock()
+	if session == nil {
+		return nil, errors.Errorf("No session to upstream")
+	}
+
+	conn, err := session.OpenStream()
 
 	if err != nil {
+		// The session cannot open streams any more (it was closed, or its carrier failed). Tear it
+		// down, so that it is recognised as lost and the next Connect starts a new one.
+		streams.TryClose(session)
 		return nil, err
 	}
 
-	stream := streams.NewNamedStream(conn, ul.session.RemoteAddr().String())
+	stream := streams.NewNamedStream(conn, session.RemoteAddr().String())
 	err = ms.SelectProtoOrFail(fmt.Sprintf("/%s", subProtocol), stream)
 	if err != nil {
 		if e := streams.LogClose(stream); e != nil {
@@ -124,7 +134,7 @@ func (ul *Upstreams) Connect(config cert.ConfigGetter, subProtocol string) (stre
 	var err error
 
 	ul.mutex.Lock()
-	if ul.connection == nil || ul.connection.Closed() {
+	if ul.lost() {
 		ul.connection = nil
 		ul.session = nil
 		err = ul.open(config.CertManager())
@@ -135,7 +145,29 @@ func (ul *Upstreams) Connect(config cert.ConfigGetter, subProtocol string) (stre
 		return nil, err
 	}
 
-	return ul.openStream(subProtocol)
+	stream, err := ul.openStream(subProtocol)
+	if err != nil {
+		// If the physical session turned out to be dead, establish a new one and try once more:
+		// the loss of the session must not fail the next local connection.
+		ul.mutex.Lock()
+		retry := ul.lost()
+		if retry {
+			ul.connection = nil
+			ul.session = nil
+			err = ul.open(config.CertManager())
+		}
+		ul.mutex.Unlock()
+		if retry && err == nil {
+			return ul.openStream(subProtocol)
+		}
+	}
+	return stream, err
+}
+
+// lost tells if there is no usable physical session (never opened, closed, or broken).
+// Must be called with the mutex held.
+func (ul *Upstreams) lost() bool {
+	return ul.connection == nil || ul.connection.Closed() || ul.session == nil || ul.session.IsClosed()
 }
 
 // Shutdown will close the connection to the connected upstream server
